@@ -39,6 +39,24 @@ def simple_service_probe(ctx):
     return len(out)
 
 
+def scale_traces():
+    """many instances started and stopped together: their offers / StopOffers share collection windows and exceed one
+    1400-byte datagram"""
+    out = []
+    for n, v in ((60, "B"), (95, "B"), (95, "F")):
+        insts = annenv.many_instances(n)
+        tc = anngen.TIMINGS[v]
+        sched = [{"t": 0, "j": 0, "op": "ann_start"}, {"t": 9, "j": 1, "op": "ann_stop"}, {"t": 11, "j": 0, "op": "ann_start"},
+                 {"t": 11, "j": 0, "op": "ann_stop"}]
+        rand = [0] * (4 * n)
+        ev, _ = annenv.run_schedule(sched, tc, insts, ann0=insts, rand=list(rand))
+        cfg = annenv.mon_cfg(tc, insts, insts)
+        cfg["dsts"] = ["mc", "a1", "a2", "a3", "a4", "a5"]
+        out.append({"cfg": cfg, "ev": monpass.add_adv(ev), "sched": sched, "variant": v, "ann0": insts, "rand": rand, "insts": insts,
+                    "diag": {"variant": v, "family": "%d instances" % n}})
+    return out
+
+
 def check(ctx):
     m1 = Mode1(ctx, "MC_Ann")
     for v in (["C10_A", "C10_B"] if ctx.quick else ["C10_A", "C10_B", "C10_C", "C10_D"]):
@@ -48,7 +66,7 @@ def check(ctx):
     for sw in ["SwD4", "SwD5", "SwD6"]:
         m1.caught(sw, "C10_quick.cfg")
     traces = anngen.run(ctx.seed, ctx.pick(360, 6000), ctx.pick(7, 10), INSTS, list("ABCDEF"), tag="c10")
-    bad, ms = judge(ctx, "Mon_C10", traces, "announcer histories", anngen.payload)
+    bad, ms = judge(ctx, "Mon_C10", traces + scale_traces(), "announcer histories", anngen.payload)
     sim = anngen.spec_to_code_ann(ctx, "Mon_C10", "[C10_A EXCEPT !.randVals = {0}]", "C10_Inputs", "A", ["I1"], ["I1"], ctx.pick(25, 400))
     probes = simple_service_probe(ctx)
     acc, total = anngen.conform_by_variant(ctx, traces, ctx.pick(120, 1200))
@@ -69,6 +87,8 @@ def replay(ctx, rep):
         n = simple_service_probe(ctx)
         print("replay: %s" % ("violation reproduced" if n else "no violation on the current tree"))
         return 1 if n else 0
+    if any(i.startswith("M") for i in p.get("insts", [])):
+        annenv.many_instances(100)
     bad, _ = judge(ctx, "Mon_C10", [anngen.rerun(p)], "replay", anngen.payload)
     print("replay: %s" % ("violation reproduced" if bad else "no violation on the current tree"))
     return 1 if bad else 0
